@@ -5,9 +5,20 @@
 package slotsupervisor
 
 import (
+	"crypto/ecdsa"
+	"crypto/elliptic"
+	"crypto/rand"
+	"crypto/tls"
+	"crypto/x509"
+	"crypto/x509/pkix"
+	"encoding/pem"
 	"errors"
 	"fmt"
+	"io/ioutil"
+	"math/big"
 	"net"
+	"os"
+	"path/filepath"
 	"reflect"
 	"sort"
 	"strings"
@@ -16,6 +27,7 @@ import (
 	"time"
 
 	"github.com/alibaba/RedisShake/pkg/libs/log"
+	conf "github.com/alibaba/RedisShake/redis-shake/configure"
 	"github.com/alibaba/RedisShake/redis-shake/dbSync/slot"
 	"github.com/alibaba/RedisShake/verifrt/ev"
 	"github.com/alibaba/RedisShake/verifrt/hook"
@@ -223,6 +235,49 @@ type c20fCase struct {
 	Password   bool   `json:"password_configured"`
 	AuthReply  string `json:"auth_reply_of_new_master"`
 	MasterNode int    `json:"master_node"` // which of the three nodes reports role:master
+	// TLS: source.tls_enable (the nodes speak TLS with certificates of a harness CA that the
+	// process trusts); Down: indexes of nodes that refuse connections
+	TLS  bool  `json:"source_tls_enable,omitempty"`
+	Down []int `json:"nodes_down,omitempty"`
+}
+
+// c20TLS: a CA and one server certificate for the three node addresses, valid from 1990 to 2100
+// (the bubble's clock starts in 2000); the CA is made a system root through SSL_CERT_FILE before
+// the process loads its root pool.
+var c20TLSConfig *tls.Config
+
+func init() {
+	caKey, err := ecdsa.GenerateKey(elliptic.P256(), rand.Reader)
+	if err != nil {
+		return
+	}
+	nb, na := time.Date(1990, 1, 1, 0, 0, 0, 0, time.UTC), time.Date(2100, 1, 1, 0, 0, 0, 0, time.UTC)
+	caT := &x509.Certificate{SerialNumber: big.NewInt(1), Subject: pkix.Name{CommonName: "verif harness CA"}, NotBefore: nb, NotAfter: na,
+		IsCA: true, BasicConstraintsValid: true, KeyUsage: x509.KeyUsageCertSign | x509.KeyUsageDigitalSignature}
+	caDER, err := x509.CreateCertificate(rand.Reader, caT, caT, &caKey.PublicKey, caKey)
+	if err != nil {
+		return
+	}
+	srvKey, _ := ecdsa.GenerateKey(elliptic.P256(), rand.Reader)
+	srvT := &x509.Certificate{SerialNumber: big.NewInt(2), Subject: pkix.Name{CommonName: "model node"}, NotBefore: nb, NotAfter: na,
+		KeyUsage: x509.KeyUsageDigitalSignature, ExtKeyUsage: []x509.ExtKeyUsage{x509.ExtKeyUsageServerAuth},
+		IPAddresses: []net.IP{net.ParseIP("10.0.3.1"), net.ParseIP("10.0.3.2"), net.ParseIP("10.0.3.3")}}
+	caCert, _ := x509.ParseCertificate(caDER)
+	srvDER, err := x509.CreateCertificate(rand.Reader, srvT, caCert, &srvKey.PublicKey, caKey)
+	if err != nil {
+		return
+	}
+	dir := os.Getenv("VERIF_SCRATCH")
+	if dir == "" {
+		dir = os.TempDir()
+	}
+	pemFile := filepath.Join(dir, fmt.Sprintf("c20-ca-%d.pem", os.Getpid()))
+	if ioutil.WriteFile(pemFile, pem.EncodeToMemory(&pem.Block{Type: "CERTIFICATE", Bytes: caDER}), 0600) != nil {
+		return
+	}
+	os.Setenv("SSL_CERT_FILE", pemFile)
+	os.Setenv("SSL_CERT_DIR", dir+"/no-such-dir")
+	c20TLSConfig = &tls.Config{Certificates: []tls.Certificate{{Certificate: [][]byte{srvDER}, PrivateKey: srvKey}}}
 }
 
 var c20fAuthReplies = []string{"", "+OK",
@@ -245,6 +300,9 @@ func c20fRun(t *testing.T, c c20fCase) (kind, what string) {
 		defer func() {
 			if x := recover(); x != nil && !strings.Contains(fmt.Sprint(x), "blocked goroutines remain") {
 				kind, what = "harness-bubble", fmt.Sprint(x)
+				if strings.Contains(what, "nil pointer") || strings.Contains(what, "runtime error") {
+					kind, what = "crash", "re-discovery panics: "+what
+				}
 			}
 		}()
 		synctest.Test(t, func(t *testing.T) {
@@ -260,10 +318,21 @@ func c20fRun(t *testing.T, c c20fCase) (kind, what string) {
 				masters[n] = m
 			}
 			var conns []*memconn.Conn
+			conf.Options.SourceTLSEnable = c.TLS
+			defer func() { conf.Options.SourceTLSEnable = false }()
 			hook.SetDialHook(func(network, addr string) (net.Conn, error, bool) {
+				for _, d := range c.Down {
+					if names[d] == addr {
+						return nil, fmt.Errorf("dial tcp %s: connect: connection refused", addr), true
+					}
+				}
 				cc, sc := memconn.Pair(addr)
 				conns = append(conns, sc)
-				go masters[addr].Serve(sc)
+				if c.TLS {
+					go masters[addr].Serve(tls.Server(sc, c20TLSConfig))
+				} else {
+					go masters[addr].Serve(sc)
+				}
 				return cc, nil, true
 			})
 			res, err = New(node).GetSlotState()
@@ -278,8 +347,18 @@ func c20fRun(t *testing.T, c c20fCase) (kind, what string) {
 	}
 	// a server that rejects AUTH outright (wrong password) does not let INFO through: not finding it is correct
 	rejects := strings.HasPrefix(c.AuthReply, "-WRONGPASS") || c.AuthReply == "-ERR invalid password"
+	masterDown := false
+	for _, d := range c.Down {
+		masterDown = masterDown || d == c.MasterNode
+	}
 	switch {
 	case rejects:
+		return "", ""
+	case masterDown:
+		// nobody reachable reports role:master: giving up with an error (after the retries) is the answer
+		if err == nil {
+			return "unreachable-master-chosen", fmt.Sprintf("the only master (%s) refuses connections and re-discovery returns %+v", names[c.MasterNode], res)
+		}
 		return "", ""
 	case err != nil || res == nil:
 		return "master-not-found", fmt.Sprintf("node %s reports role:master (its AUTH answer: %q) but re-discovery fails: %v", names[c.MasterNode], c.AuthReply, err)
@@ -297,7 +376,7 @@ func TestVerif_C20F(t *testing.T) {
 		if err := ev.LoadReplay(&c); err != nil {
 			t.Fatal(err)
 		}
-		if c.AuthReply == "" && !c.Password && c.MasterNode == 0 {
+		if c.AuthReply == "" && !c.Password && c.MasterNode == 0 && !c.TLS && len(c.Down) == 0 {
 			return
 		}
 		k, w := c20fRun(t, c)
@@ -315,7 +394,7 @@ func TestVerif_C20F(t *testing.T) {
 	for _, pwc := range []bool{false, true} {
 		for _, ar := range c20fAuthReplies {
 			for mn := 0; mn < 3; mn++ {
-				c := c20fCase{pwc, ar, mn}
+				c := c20fCase{Password: pwc, AuthReply: ar, MasterNode: mn}
 				k, w := c20fRun(t, c)
 				n++
 				h := ev.HashS(fmt.Sprint(c))
@@ -324,6 +403,26 @@ func TestVerif_C20F(t *testing.T) {
 				ev.Outcome("real-factory:" + k)
 				if k != "" {
 					ev.Violate("C20|real-factory|"+k, fmt.Sprintf("%s (password configured: %v)", w, pwc), c)
+				}
+			}
+		}
+	}
+	// nodes that refuse connections, with and without TLS (the promoted replica must still be
+	// found; when the only master is down the answer is an error after the retries, not a crash)
+	if c20TLSConfig != nil {
+		for _, tlsOn := range []bool{false, true} {
+			for mn := 0; mn < 3; mn++ {
+				for _, down := range [][]int{nil, {0}, {1}, {2}, {0, 1}, {1, 2}, {0, 1, 2}} {
+					c := c20fCase{Password: true, AuthReply: "+OK", MasterNode: mn, TLS: tlsOn, Down: down}
+					k, w := c20fRun(t, c)
+					n++
+					h := ev.HashS(fmt.Sprint(c))
+					ev.State(h)
+					ev.Nontrivial(h)
+					ev.Outcome("real-factory-down:" + k)
+					if k != "" {
+						ev.Violate("C20|real-factory|"+k, fmt.Sprintf("%s (source.tls_enable=%v, nodes down: %v)", w, tlsOn, down), c)
+					}
 				}
 			}
 		}
